@@ -315,6 +315,9 @@ impl BoardBuilder {
         let (checkers, pinned) = board.calculate_checkers_and_pins(board.side_to_move());
         board.checkers = checkers;
         board.pinned = pinned;
+        if !board.checkers_and_pins_are_valid() {
+            return Err(());
+        }
 
         Ok(())
     }
